@@ -2,10 +2,22 @@
 
 package main
 
-// C02 harness: every case is one HTTP request sent through the real proxy
-// handler chain (see harness/common/chainrig.go); the observation is what the
-// stub upstream received and what the client got back.
+import "encoding/json"
+
+// C02 harness.  A plain case is one HTTP request sent through the real proxy handler chain with a
+// scripted filter-level authorizer (harness/common/chainrig.go); a case of kind "hist" is a history of
+// cluster creations / deletions and impersonating requests through the same chain with the REAL
+// multi-cluster SubjectAccessReview authorizer (harness/c02/hist.go).
 func main() {
 	rig := newChainRig()
-	runCases(rig.run)
+	runCases(func(raw json.RawMessage) interface{} {
+		var k struct {
+			Kind string `json:"kind"`
+		}
+		_ = json.Unmarshal(raw, &k)
+		if k.Kind == "hist" {
+			return runHist(raw)
+		}
+		return rig.run(raw)
+	})
 }
